@@ -25,6 +25,7 @@ def c01 (op : String) (args : List Sexp) : Verdict :=
   if op != "e2e" then .bad s!"unknown op {op}" else
   match args with
   | [_, _, _, _, _, .list [.atom "writeerr", e]] => .oracle s!"writing a supported type failed: {e}"
+  | [_, _, _, _, _, .list (.atom "panic" :: e)] => .oracle s!"writing or reading back a supported type panics: {e}"
   | _ =>
   match parseE2E args with
   | none => .bad "parse"
